@@ -105,6 +105,24 @@ def impl(case):
         it = iter(exp)
         for _ in range(1 + len(case.get("options") or []) + min(part, n_nodes)):
             next(it)                   # an abandoned first iteration: header, options, `part` node lines
+    il = case.get("interleave")
+    if il:
+        # two live iterators of ONE exporter: the first is paused after il[0] lines, a second one is started, advanced
+        # il[1] lines and left unfinished, then the first is resumed - it must yield what an undisturbed iteration yields
+        it1 = iter(exp)
+        first = []
+        for _ in range(il[0]):
+            try:
+                first.append(next(it1))
+            except StopIteration:
+                break
+        it2 = iter(exp)
+        for _ in range(il[1]):
+            try:
+                next(it2)
+            except StopIteration:
+                break
+        return first + list(it1)
     mseq = case.get("maxlevel_seq") or []
     seq = case.get("seq") or []
     if (mseq or (seq and (case.get("seq_assign") or any(ov and "maxlevel" in ov for ov in seq)))) and \
